@@ -326,3 +326,21 @@ Theorem C15_safe_acos_RInst_spec : forall x, 0 <= x <= 1 ->
     (1 / 1000 <= x -> a = Ratan.acos (1 - 2 * x * x)).
 Proof. exact safe_acos_RInst_spec. Qed.
 Print Assumptions C15_safe_acos_RInst_spec.
+
+(* ---- Interval model soundness: the executable interval instance (used by the correspondence check) encloses the
+   ideal-real instance about which the theorems of this file speak.  [encl i x] = the real x lies in the interval i;
+   [sound_opt rel a b] = whenever the interval run answers [Some], the real run answers [Some] with a related value
+   (the interval run may give up with [None], never answer differently). ---- *)
+From A5 Require Import Num.IvInst Num.IvSound Geo.IvSoundGeo Geo.IvSoundCell.
+
+Theorem C15_interval_forward_sound : forall th ph o th' ph',
+  encl th th' -> encl ph ph' ->
+  sound_opt encl2 (dodec_forward IvInst th ph o) (dodec_forward RInst th' ph' o).
+Proof. exact dodec_forward_sound. Qed.
+Print Assumptions C15_interval_forward_sound.
+
+Theorem C15_interval_inverse_sound : forall face o face',
+  encl2 face face' ->
+  sound_opt encl2 (dodec_inverse IvInst face o) (dodec_inverse RInst face' o).
+Proof. exact dodec_inverse_sound. Qed.
+Print Assumptions C15_interval_inverse_sound.
